@@ -146,7 +146,7 @@ FeedLits == << IntN(0), IntN(1), IntN(2), IntN(3), IntN(-1), IntN(255), IntN(7),
                NameV("a"), NameV("b"), NameV("x"), NameV("Font"), XNameV("true"), XNameV("false"),
                StrLit(<<97, 98, 99>>), StrLit(<<>>), StrLit(<<120>>), XNameV("mark"), XNameV("["), XNameV("<<"),
                XNameV("currentdict"), XNameV("userdict"), XNameV("systemdict"), XNameV("StandardEncoding"),
-               XNameV("a"), XNameV("x"), XNameV("count") >>
+               XNameV("a"), XNameV("x"), XNameV("count"), XNameV("errordict"), NameV("typecheck") >>
 FeedOps == <<"pop", "dup", "exch", "copy", "index", "roll", "]", ">>", "cleartomark", "abs", "add", "sub", "mul",
              "and", "or", "not", "eq", "ne", "array", "string", "dict", "length", "get", "put", "getinterval",
              "putinterval", "begin", "end", "def", "load", "where", "known", "maxlength", "type", "definefont",
